@@ -112,7 +112,7 @@ theorem C14_error_classes_block (home : Bytes) (defs : List (Bytes × Bytes)) (r
 /-- Error class "stdin already defined": whenever the parser meets the keyword `stdin` at the top
 level after a block that reads from stdin, it reports a diagnostic on the line of that keyword -
 whatever precedes and follows. -/
-theorem C14_error_second_stdin (cx : PCtx) (fuel : Nat) (blocks : List PBlock) (s : PState)
+theorem C14_error_second_stdin (cx : PCtx) (fuel : Nat) (blocks : List PBlock) (s : ParseSt)
     (hla : s.la = some (.kw .stdin)) (hany : blocks.any (fun b => b.paths.any isStdinStr) = true) :
     parseTop cx (fuel + 1) blocks s = .err s.tokLine { s with la := none } :=
   Proofs.Conf.second_stdin cx fuel blocks s hla hany
@@ -133,7 +133,7 @@ theorem C14_error_macro_reference (action : Bool) (ms : List Macro) (name pre po
 with `-D` - was never referenced, the configuration is rejected with the line of the definition (0 for
 `-D`). -/
 theorem C14_error_macro_unused (home : Bytes) (defs : List (Bytes × Bytes)) (rxOk : Pat → Bool) (input : Bytes) (ms : List Macro)
-    (blocks : List PBlock) (s : PState) (m : Macro) (hd : macrosOfDefs defs [] = some ms)
+    (blocks : List PBlock) (s : ParseSt) (m : Macro) (hd : macrosOfDefs defs [] = some ms)
     (hp : parseTop { nl := countNl input, home := home, rxOk := rxOk } (input.length + 1) [] { rest := input, macros := ms } = .ok blocks s)
     (hu : firstUnused s.macros = some m) :
     parseConfig home defs rxOk input = .error m.lno :=
@@ -171,7 +171,7 @@ example : parseConfig [] [] (fun _ => true) "stdin { match all exec body \"x\" }
 
 /-- Error class "exec options cannot be repeated": a second `stdin` (or `body`) among the options of an
 `exec` action is diagnosed on its own line, whatever follows. -/
-theorem C14_error_exec_option_repeated (cx : PCtx) (fuel : Nat) (si bo : Bool) (s : PState) :
+theorem C14_error_exec_option_repeated (cx : PCtx) (fuel : Nat) (si bo : Bool) (s : ParseSt) :
     (s.la = some (.kw .stdin) → si = true → parseExecFlags cx (fuel + 1) si bo s = .err s.tokLine { s with la := none }) ∧
     (s.la = some (.kw .body) → bo = true → parseExecFlags cx (fuel + 1) si bo s = .err s.tokLine { s with la := none }) :=
   Proofs.Conf.exec_option_repeated cx fuel si bo s
